@@ -73,11 +73,20 @@ DEFAULT_VAR = {'fd': 'c', 'pd': 'default', 'grad': 'domain', 'div': 'range', 'la
 # fd: 'dxint' / 'dxf32': the step given as a Python int / a numpy.float32 scalar
 # operators: 'weight': domain with a constant weighting other than the cell volume (uniformly
 # weighted all the same: adjoint == transpose is demanded)
-VARIANTS = {'fd': ('forder', 'strided', 'list', 'minkw', 'positional', 'dxint', 'dxf32'),
-            'pd': ('explicit', 'otherprec', 'bdry', 'minkw', 'positional', 'weight'),
-            'grad': ('range', 'both', 'otherprec', 'bdry', 'minkw', 'positional', 'weight'),
-            'div': ('domain', 'both', 'otherprec', 'bdry', 'minkw', 'positional', 'weight'),
-            'lap': ('explicit', 'otherprec', 'bdry', 'minkw', 'positional', 'weight')}
+# all kinds: 'cint': the pad constant given as a Python int (2 instead of 1.5; constant mode)
+# operators: 'bdrymix': nodes_on_bdry given per side, [(True, False), (False, True),
+# (True, True)] for axes 0, 1, 2 (a grid point on one boundary only: the cell side is
+# extent / (n - 1/2))
+VARIANTS = {'fd': ('forder', 'strided', 'list', 'minkw', 'positional', 'dxint', 'dxf32', 'cint'),
+            'pd': ('explicit', 'otherprec', 'bdry', 'bdrymix', 'minkw', 'positional', 'weight',
+                   'cint'),
+            'grad': ('range', 'both', 'otherprec', 'bdry', 'bdrymix', 'minkw', 'positional',
+                     'weight', 'cint'),
+            'div': ('domain', 'both', 'otherprec', 'bdry', 'bdrymix', 'minkw', 'positional',
+                    'weight', 'cint'),
+            'lap': ('explicit', 'otherprec', 'bdry', 'bdrymix', 'minkw', 'positional', 'weight',
+                    'cint')}
+BDRY_SIDES = ((True, False), (False, True), (True, True))
 # cell sides of the variant states (default: dyadic)
 VAR_H = {('fd', 'minkw'): ('unit', 'dyadic'), ('fd', 'dxint'): ('int',)}
 WEIGHT = 2.0
@@ -122,6 +131,7 @@ REGIME_HS = ('near1', 'near1m', 'tiny', 'huge')
 REGIME_SHAPES = [(2,), (3,), (4,), (5,), (2, 3), (3, 3), (3, 2, 2)]
 VALUE_SCALES = (-40, 40)
 LARGE_SHAPES = [(101,), (12, 11)]
+ONE_SHAPES = [(1, 2), (3, 1), (1, 4, 1), (2, 1, 3)]
 
 
 def _combos(kind, dtype, extra, ignored=None):
@@ -203,6 +213,19 @@ def configs(tier):
                         out.append({'kind': kind, 'method': method, 'mode': mode,
                                     'c': c * 2.0 ** vs, 'shape': list(shape), 'dtype': dtype,
                                     'h': h, 'var': DEFAULT_VAR[kind], 'vs': vs})
+    # grids with axes of length 1 next to the differentiated one (finite_diff and
+    # PartialDerivative only need "at least two elements" along ``axis``; the other
+    # operators differentiate along every axis and are not admissible here)
+    for shape in ONE_SHAPES:
+        for dtype, h in ([(d, h) for d in DTYPES for h in ('unit', 'dyadic')] if thorough else
+                         [('float64', 'dyadic'), ('float32', 'unit')]):
+            for kind in ('fd', 'pd'):
+                for method, mode, c in _combos(kind, dtype, False):
+                    if not _admissible(kind, mode, shape):
+                        continue
+                    out.append({'kind': kind, 'method': method, 'mode': mode, 'c': c,
+                                'shape': list(shape), 'dtype': dtype, 'h': h,
+                                'var': DEFAULT_VAR[kind]})
     # axis lengths / sizes beyond the size thresholds of the element arithmetic below the
     # operators (odl switches its lincomb implementation at 100 entries)
     for shape in LARGE_SHAPES:
@@ -226,6 +249,10 @@ def configs(tier):
                         for method, mode, c in _combos(kind, dtype, False):
                             if not _admissible(kind, mode, shape):
                                 continue
+                            if var == 'cint':
+                                if mode != 'constant':
+                                    continue
+                                c = 2 if c else 0
                             out.append({'kind': kind, 'method': method, 'mode': mode, 'c': c,
                                         'shape': list(shape), 'dtype': dtype, 'h': h,
                                         'var': var})
@@ -261,7 +288,14 @@ def _site(cfg):
 
 def _geometry(shape, h, bdry=False):
     hs = H[h][:len(shape)]
-    if bdry:
+    if bdry == 'mix':
+        # a node on the boundary at the sides named in BDRY_SIDES only: the boundary cells of
+        # those sides are half cells, n - 1 + (number of sides without a node) / 2 cells in all
+        ncell = [n - 1 + 0.5 * ((not lo) + (not hi))
+                 for n, (lo, hi) in zip(shape, BDRY_SIDES)]
+        max_pt = [k * s for k, s in zip(ncell, hs)]
+        dxs = [m / k for m, k in zip(max_pt, ncell)]
+    elif bdry:
         # nodes on the boundary: n nodes from 0 to max, spacing max / (n - 1)
         max_pt = [(n - 1) * s for n, s in zip(shape, hs)]
         dxs = [m / (n - 1) for m, n in zip(max_pt, shape)]
@@ -275,7 +309,8 @@ def _geometry(shape, h, bdry=False):
 def _space(shape, dtype, h, bdry=False, weighting=None):
     max_pt, dxs = _geometry(shape, h, bdry)
     kw = {} if weighting is None else {'weighting': weighting}
-    sp = odl.uniform_discr([0.0] * len(shape), max_pt, shape, dtype=dtype, nodes_on_bdry=bdry,
+    nob = list(BDRY_SIDES[:len(shape)]) if bdry == 'mix' else bdry
+    sp = odl.uniform_discr([0.0] * len(shape), max_pt, shape, dtype=dtype, nodes_on_bdry=nob,
                            **kw)
     return sp, dxs
 
@@ -533,6 +568,10 @@ def _check_operator(rec, cfg, build, M, b, affine, exact, eps, dual_div=None):
         rec.bad('matrix_differs', 'operator maps %d -> %d entries, expected %d -> %d'
                 % (nd, nr, M.shape[1], M.shape[0]))
         return
+    # the history forms (7.) and the second-level derived objects run in the states with unit
+    # cell sides and in every constructor variant, i.e. for every class x method x mode x
+    # pad_const x shape
+    with_history = cfg['h'] == 'unit' or cfg['var'] != DEFAULT_VAR[cfg['kind']]
     # 1. stencil
     imgs = _images(op, rec, name)
     _compare_images(rec, 'matrix_differs', name, imgs, M, b, exact, eps)
@@ -600,6 +639,27 @@ def _check_operator(rec, cfg, build, M, b, affine, exact, eps, dual_div=None):
             if (_mismatch(A2, A.astype(T.dtype), exact, eps, sct) is not None
                     or _mismatch(a20, a0.astype(T.dtype), exact, eps, sct) is not None):
                 rec.bad('inplace_differs', '%s.adjoint(y, out=x) != %s.adjoint(y)' % (name, name))
+            # the adjoint of the adjoint (derived object of a derived object) is the operator
+            # again: same spaces, same matrix (states in which the history forms run)
+            if with_history:
+                aa = _lib('%s.adjoint.adjoint' % name, lambda: adj.adjoint)
+                if aa.domain != dom or aa.range != ran:
+                    rec.bad('adjoint_spaces_wrong', 'adjoint.adjoint maps %r -> %r'
+                            % (aa.domain, aa.range))
+                else:
+                    B, Bi, b0 = _images(aa, rec, name + '.adjoint.adjoint')
+                    ld = np.clongdouble if np.iscomplexobj(Y) else np.longdouble
+                    bad = _mismatch(b0, np.zeros(nr), exact, eps, sct)
+                    if bad is None:
+                        bad = _mismatch(B, Y.astype(ld), exact, eps, sct)
+                    if bad is None and Bi is not None:
+                        bad = _mismatch(Bi, Yi.astype(ld), exact, eps, sct)
+                    if bad is not None:
+                        k = bad[1] if len(bad) == 2 else 0
+                        rec.bad('adjoint_not_transpose',
+                                'column %d of matrix(%s.adjoint.adjoint) is %s but column %d of '
+                                'matrix(%s) is %s; adjoint.adjoint(0)=%s'
+                                % (k, name, _fmt(B[:, k]), k, name, _fmt(Y[:, k]), _fmt(b0)))
         # divergence == - adjoint of gradient, with the dual method / mode from the
         # reference's own tables
         if dual_div is not None:
@@ -637,12 +697,24 @@ def _check_operator(rec, cfg, build, M, b, affine, exact, eps, dual_div=None):
         _compare_images(rec, 'derivative_not_zero_padded', '%s.derivative(%s)' % (name, lab),
                         _images(der, rec, name + '.derivative'), M, np.zeros(nr, dtype=b.dtype),
                         exact, eps)
+        # the derivative of the affine variant is linear: its adjoint (what a solver takes at
+        # the linearisation point) is the transpose of the zero-padded matrix
+        if affine and lab == 'p' and wd is not None and wd == wr:
+            dadj = _lib('%s.derivative(p).adjoint' % name, lambda: der.adjoint)
+            if dadj.domain != ran or dadj.range != dom:
+                rec.bad('adjoint_spaces_wrong', 'derivative(p).adjoint maps %r -> %r'
+                        % (dadj.domain, dadj.range))
+            else:
+                _compare_images(rec, 'adjoint_not_transpose',
+                                '%s.derivative(p).adjoint' % name,
+                                _images(dadj, rec, name + '.derivative.adjoint'),
+                                np.conj(M.T), np.zeros(nd, dtype=b.dtype), exact, eps)
     # 7. history: the one operator object (used above for everything, its adjoint and
     # derivative built and used in between) and its adjoint obtained once, in a mixed
     # in-place / out-of-place sequence with a reused buffer, against freshly built operators
     # (the sequence does not depend on the cell sides: run it for the unit cell sides and for
     # every constructor variant, i.e. for every class x method x mode x pad_const x shape)
-    if cfg['h'] == 'unit' or cfg['var'] != DEFAULT_VAR[cfg['kind']]:
+    if with_history:
         _history(rec, name, op, build, exact, eps, cplx)
         if adj_once is not None:
             _history(rec, name + '.adjoint', adj_once, lambda: build().adjoint, exact, eps,
@@ -658,6 +730,9 @@ def _run_fd(rec, cfg):
     cplx = dtype.kind == 'c'
     c = _const(cfg['c'])
     method, mode, var = cfg['method'], cfg['mode'], cfg['var']
+    # what is handed to odl as pad_const ('cint': the same number as a Python int)
+    cp = int(c) if var == 'cint' else c
+    assert cp == c
     exact = cfg['h'] not in INEXACT_H
     eps = _eps(dtype)
     dxs = H[cfg['h']]
@@ -706,8 +781,8 @@ def _run_fd(rec, cfg):
             if var == 'positional':
                 # finite_diff(f, axis, dx=1.0, method='forward', out=None,
                 #             pad_mode='constant', pad_const=0)
-                return DO.finite_diff(f, axis, dxv, method, out, mode, c)
-            kw = {'dx': dxv, 'method': method, 'pad_mode': mode, 'pad_const': c}
+                return DO.finite_diff(f, axis, dxv, method, out, mode, cp)
+            kw = {'dx': dxv, 'method': method, 'pad_mode': mode, 'pad_const': cp}
             if var == 'minkw':
                 kw = dict((k, v) for k, v in kw.items() if v != FD_DEFAULTS[k])
             if out is not None:
@@ -777,9 +852,13 @@ def _run_op(rec, cfg):
     dtype = cfg['dtype']
     c = _const(cfg['c'])
     method, mode, var = cfg['method'], cfg['mode'], cfg['var']
+    # what is handed to odl as pad_const ('cint': the same number as a Python int)
+    cp = int(c) if var == 'cint' else c
+    assert cp == c
     exact = cfg['h'] not in INEXACT_H
     nd = len(shape)
-    sp, dxs = _space(shape, dtype, cfg['h'], bdry=(var == 'bdry'),
+    sp, dxs = _space(shape, dtype, cfg['h'],
+                     bdry='mix' if var == 'bdrymix' else (var == 'bdry'),
                      weighting=WEIGHT if var == 'weight' else None)
     eps = _eps(dtype)
     other = None
@@ -788,7 +867,7 @@ def _run_op(rec, cfg):
         eps = _eps(dtype, _other(dtype))
     cref = c if mode == 'constant' else 0
     affine = cref != 0
-    kw = {'pad_mode': mode, 'pad_const': c}
+    kw = {'pad_mode': mode, 'pad_const': cp}
     if kind != 'lap':
         kw['method'] = method
     if var == 'minkw':
@@ -801,13 +880,13 @@ def _run_op(rec, cfg):
             rec.ctx = 'axis=%d method=%s pad_mode=%s pad_const=%s var=%s' % (axis, method, mode,
                                                                              c, var)
             M, b = fd.partial(shape, axis, dxs[axis], method, mode, cref)
-            if var in ('default', 'bdry', 'minkw', 'weight'):
+            if var in ('default', 'bdry', 'minkw', 'weight', 'bdrymix', 'cint'):
                 build = lambda: odl.PartialDerivative(sp, axis, **kw)            # noqa: E731
             elif var == 'positional':
                 # PartialDerivative(domain, axis, range=None, method='forward',
                 #                   pad_mode='constant', pad_const=0)
                 build = lambda: odl.PartialDerivative(sp, axis, None, method,    # noqa: E731
-                                                      mode, c)
+                                                      mode, cp)
             elif var == 'explicit':
                 build = lambda: odl.PartialDerivative(                            # noqa: E731
                     sp, axis, range=_space(shape, dtype, cfg['h'])[0], **kw)
@@ -818,12 +897,12 @@ def _run_op(rec, cfg):
     rec.ctx = 'method=%s pad_mode=%s pad_const=%s var=%s' % (method, mode, c, var)
     if kind == 'grad':
         M, b = fd.gradient(shape, dxs, method, mode, cref)
-        if var in ('domain', 'bdry', 'minkw', 'weight'):
+        if var in ('domain', 'bdry', 'minkw', 'weight', 'bdrymix', 'cint'):
             build = lambda: odl.Gradient(sp, **kw)                                # noqa: E731
         elif var == 'positional':
             # Gradient(domain=None, range=None, method='forward', pad_mode='constant',
             #          pad_const=0)
-            build = lambda: odl.Gradient(sp, None, method, mode, c)               # noqa: E731
+            build = lambda: odl.Gradient(sp, None, method, mode, cp)              # noqa: E731
         elif var == 'range':
             build = lambda: odl.Gradient(range=odl.ProductSpace(sp, nd), **kw)    # noqa: E731
         elif var == 'both':
@@ -837,12 +916,12 @@ def _run_op(rec, cfg):
         _check_operator(rec, cfg, build, M, b, affine, exact, eps, dual_div=dual)
     elif kind == 'div':
         M, b = fd.divergence(shape, dxs, method, mode, cref)
-        if var in ('range', 'bdry', 'minkw', 'weight'):
+        if var in ('range', 'bdry', 'minkw', 'weight', 'bdrymix', 'cint'):
             build = lambda: odl.Divergence(range=sp, **kw)                        # noqa: E731
         elif var == 'positional':
             # Divergence(domain=None, range=None, method='forward', pad_mode='constant',
             #            pad_const=0)
-            build = lambda: odl.Divergence(sp ** nd, None, method, mode, c)       # noqa: E731
+            build = lambda: odl.Divergence(sp ** nd, None, method, mode, cp)      # noqa: E731
         elif var == 'domain':
             build = lambda: odl.Divergence(odl.ProductSpace(sp, nd), **kw)        # noqa: E731
         elif var == 'both':
@@ -852,11 +931,11 @@ def _run_op(rec, cfg):
         _check_operator(rec, cfg, build, M, b, affine, exact, eps)
     elif kind == 'lap':
         M, b = fd.laplacian(shape, dxs, mode, cref)
-        if var in ('default', 'bdry', 'minkw', 'weight'):
+        if var in ('default', 'bdry', 'minkw', 'weight', 'bdrymix', 'cint'):
             build = lambda: odl.Laplacian(sp, **kw)                               # noqa: E731
         elif var == 'positional':
             # Laplacian(domain, range=None, pad_mode='constant', pad_const=0)
-            build = lambda: odl.Laplacian(sp, None, mode, c)                      # noqa: E731
+            build = lambda: odl.Laplacian(sp, None, mode, cp)                     # noqa: E731
         elif var == 'explicit':
             build = lambda: odl.Laplacian(sp, range=_space(shape, dtype, cfg['h'])[0],  # noqa
                                           **kw)
@@ -878,10 +957,12 @@ def run(cfg):
             _run_op(rec, cfg)
     except LibErr as e:
         rec.bad('raises:' + type(e.exc).__name__, '%s raised %r' % (e.what, e.exc))
-    sig = '%s:%s:%s:%s:%s:%s:%s' % (cfg['kind'], cfg['method'], cfg['mode'],
-                                    'c' if _const(cfg['c']) != 0 else '0', _sizeclass(cfg),
-                                    len(cfg['shape']),
-                                    'ok' if not rec.first else '+'.join(sorted(rec.first)))
+    regime = cfg['h'] if cfg['h'] in REGIME_HS else 'vs%d' % cfg['vs'] if cfg.get('vs') else ''
+    sig = '%s:%s:%s:%s:%s:%s:%s%s' % (cfg['kind'], cfg['method'], cfg['mode'],
+                                      'c' if _const(cfg['c']) != 0 else '0', _sizeclass(cfg),
+                                      len(cfg['shape']),
+                                      'ok' if not rec.first else '+'.join(sorted(rec.first)),
+                                      ':' + regime if regime else '')
     return rec.result(sig)
 
 
